@@ -55,6 +55,7 @@ struct ImageInfo {
 fn spec_to_json(s: &DumpSpec) -> Value {
     json!({
         "index_names": s.index_names,
+        "index_count": s.index_count,
         "prop_names": s.prop_names,
         "max_pack_id": s.max_pack_id,
         "beyond": s.beyond,
@@ -82,6 +83,7 @@ fn spec_from_json(v: &Value) -> DumpSpec {
         beyond: v["beyond"].as_u64().unwrap() as u32,
         read_bytes: v["read_bytes"].as_bool().unwrap(),
         cap: v["cap"].as_u64().unwrap() as u32,
+        index_count: v["index_count"].as_u64().unwrap_or(0) as usize,
     }
 }
 
@@ -228,6 +230,11 @@ fn faults_for(mode: Mode, tier: Tier, seed: u64, img: &ImageInfo) -> Vec<Fault> 
     let mut rng = Rng::derive(seed, "faults", simcore::prng::hash_label(0, &img.name, mode as u64));
     let mut out = Vec::new();
     for (fi, file) in img.bytes.iter().enumerate() {
+        if img.name.contains("loose-beside") && fi != 0 {
+            // the loose files next to the container are not what the reader uses (packs are looked
+            // for inside the file at hand first): damage goes into the container
+            continue;
+        }
         let len = file.len() as u64;
         // positions of interest
         let mut positions: Vec<u64> = Vec::new();
@@ -278,6 +285,24 @@ fn faults_for(mode: Mode, tier: Tier, seed: u64, img: &ImageInfo) -> Vec<Fault> 
                     pos,
                     mask,
                 });
+            }
+        }
+        // (C05 / C06, small images) every single bit of the stored bytes of compressed clusters:
+        // a compressed stream has no checksum of its own, and exactly one bit may turn it into a
+        // valid stream of another length
+        if small && mode != Mode::C04 && !img.name.contains("-none") {
+            for span in &img.spans[fi] {
+                if span.kind != b'c' {
+                    continue;
+                }
+                for pos in span.start + 128..span.start + span.check_info_pos {
+                    for bit in 0..8u8 {
+                        let mask = 1u8 << bit;
+                        if !b.masks.contains(&mask) {
+                            out.push(Fault::Flip { file: fi, pos, mask });
+                        }
+                    }
+                }
             }
         }
         // every single bit of every pack's header blocks and tail (the masks above are a few bytes
